@@ -6,7 +6,7 @@ import re
 import z3
 
 from ..symex import (FALSE, GENERIC_MODELS, STD_CMP_MODELS, TRUE, Enum, Exec, Opaque, PyVec, Ref, State, Struct, Tup, Unsupported, bv)
-from ..bytesmodel import BYTES_MODELS
+from ..bytesmodel import BYTES_MODELS, buf_of
 
 PAGE = 8192
 MODELS = BYTES_MODELS + STD_CMP_MODELS + GENERIC_MODELS
@@ -112,6 +112,129 @@ def run_lower_bound(nkeys):
     return run
 
 
+def read_cells(mf, page, st, n):
+    """[(key bytes, payload)] of cells 0..n-1 read back through the real leaf_cell_key_and_payload; raises if a read can fail."""
+    states = [(st, [])]
+    for i in range(n):
+        nxt = []
+        for s, acc in states:
+            ex, paths = call(mf, IMPL + r"leaf_cell_key_and_payload\(", [page, bv(i, 64)], s)
+            for p in ok_paths(paths, "leaf_cell_key_and_payload"):
+                if not (isinstance(p.ret, Enum) and p.ret.variant == "Ok"):
+                    raise AssertionError("cell %d cannot be read back: %r" % (i, p.ret))
+                tup = p.ret.fields[0]
+                key = tup.fields[0]
+                nxt.append((p.st, acc + [(buf_of(ex, p.st, key).items, tup.fields[1])]))
+        states = nxt
+    return states
+
+
+def cell_count_of(mf, page, st):
+    ex, paths = call(mf, IMPL + r"cell_count\(", [page], st)
+    ps = ok_paths(paths, "cell_count")
+    if len(ps) != 1:
+        raise Unsupported("cell_count forked")
+    return ps[0].ret
+
+
+def run_insert(nkeys):
+    def run(mf, tier):
+        call.queries, call.solver_time, call.inlined = 0, 0.0, set()
+        st = State()
+        ks = [z3.BitVec("k%d" % i, 8) for i in range(nkeys)]
+        ps = [z3.BitVec("p%d" % i, 64) for i in range(nkeys)]
+        t, pn = z3.BitVec("t", 8), z3.BitVec("p_new", 64)
+        for a, b in zip(ks, ks[1:]):
+            st.pc.append(z3.ULE(a, b))
+        page, states = build_leaf(mf, st, "a", ks, ps)
+        failed, n = [], 0
+        try:
+            for s in states:
+                s.env["$target"] = PyVec([t])
+                ex, paths = call(mf, IMPL + r"leaf_lower_bound\(", [page, Ref("$target")], s)
+                for p in ok_paths(paths, "leaf_lower_bound"):
+                    idx = p.ret.fields[0]
+                    for j in range(nkeys + 1):
+                        if not ex.feasible(p.pc, idx == j):
+                            continue
+                        s2 = p.st.fork()
+                        s2.pc.append(idx == j)
+                        ex2, paths2 = call(mf, IMPL + r"leaf_insert_at\(", [page, bv(j, 64), Ref("$target"), pn], s2)
+                        for p2 in ok_paths(paths2, "leaf_insert_at"):
+                            n += 1
+                            if not (isinstance(p2.ret, Enum) and p2.ret.variant == "Ok"):
+                                failed.append("inserting into a leaf with free space fails: %r" % (p2.ret,))
+                                continue
+                            cnt = cell_count_of(mf, page, p2.st)
+                            if not ex2.entails(p2.pc, cnt == nkeys + 1):
+                                failed.append("insert does not add exactly one cell")
+                                continue
+                            for s3, cells in read_cells(mf, page, p2.st, nkeys + 1):
+                                want = [([ks[i]], ps[i]) for i in range(j)] + [([t], pn)] + [([ks[i]], ps[i]) for i in range(j, nkeys)]
+                                for pos, ((kb, pv), (wk, wp)) in enumerate(zip(cells, want)):
+                                    same = z3.And(len(kb) == 1, kb[0] == wk[0], pv == wp) if len(kb) == 1 else z3.BoolVal(False)
+                                    if not ex2.entails(s3.pc, same):
+                                        failed.append("after inserting at its lower bound, cell %d of the leaf is not the expected (key,payload) pair "
+                                                      "(new pair first among equal keys, every other pair kept in order)" % pos)
+                                for (ka, _), (kb2, _) in zip(cells, cells[1:]):
+                                    if not ex2.entails(s3.pc, z3.ULE(ka[0], kb2[0])):
+                                        failed.append("leaf keys are not sorted after an insert at the lower bound")
+        except AssertionError as e:
+            failed.append(str(e))
+        res = {"paths": n, "queries": call.queries, "solver_time_s": round(call.solver_time, 3),
+               "sample": ["%d sorted symbolic keys + symbolic new (key,payload); insert position = the real leaf_lower_bound" % nkeys],
+               "functions": ["index::btree::Page::{leaf_lower_bound, leaf_insert_at, shift_slots_right, leaf_cell_key_and_payload} + helpers"]}
+        if failed:
+            res.update({"status": "fail", "failed": sorted(set(failed)), "reason": "; ".join(sorted(set(failed)))[:400]})
+        else:
+            res["status"] = "pass"
+        return res
+    return run
+
+
+def run_delete_cell(nkeys):
+    def run(mf, tier):
+        call.queries, call.solver_time, call.inlined = 0, 0.0, set()
+        st = State()
+        ks = [z3.BitVec("k%d" % i, 8) for i in range(nkeys)]
+        ps = [z3.BitVec("p%d" % i, 64) for i in range(nkeys)]
+        for a, b in zip(ks, ks[1:]):
+            st.pc.append(z3.ULE(a, b))
+        page, states = build_leaf(mf, st, "a", ks, ps)
+        failed, n = [], 0
+        try:
+            for s in states:
+                for j in range(nkeys):
+                    ex, paths = call(mf, IMPL + r"delete_from_leaf\(", [page, bv(j, 64)], s)
+                    for p in ok_paths(paths, "delete_from_leaf"):
+                        n += 1
+                        if not (isinstance(p.ret, Enum) and p.ret.variant == "Ok"):
+                            failed.append("deleting an existing cell fails: %r" % (p.ret,))
+                            continue
+                        cnt = cell_count_of(mf, page, p.st)
+                        if not ex.entails(p.pc, cnt == nkeys - 1):
+                            failed.append("delete does not remove exactly one cell")
+                            continue
+                        for s3, cells in read_cells(mf, page, p.st, nkeys - 1):
+                            want = [(ks[i], ps[i]) for i in range(nkeys) if i != j]
+                            for pos, ((kb, pv), (wk, wp)) in enumerate(zip(cells, want)):
+                                if not (len(kb) == 1 and ex.entails(s3.pc, z3.And(kb[0] == wk, pv == wp))):
+                                    failed.append("after deleting cell %d, cell %d is not the pair that was stored next to it" % (j, pos))
+        except AssertionError as e:
+            failed.append(str(e))
+        res = {"paths": n, "queries": call.queries, "solver_time_s": round(call.solver_time, 3),
+               "sample": ["%d symbolic cells, every delete position" % nkeys], "functions": ["index::btree::Page::{delete_from_leaf, shift_slots_left} + helpers"]}
+        if failed:
+            res.update({"status": "fail", "failed": sorted(set(failed)), "reason": "; ".join(sorted(set(failed)))[:400]})
+        else:
+            res["status"] = "pass"
+        return res
+    return run
+
+
 TARGETS = [
+    {"name": "c26_o2_q_e2_insert_at_lower_bound_2_keys", "crate": "nervusdb-storage", "run": run_insert(2)},
+    {"name": "c26_o2_t_e2_insert_at_lower_bound_3_keys", "crate": "nervusdb-storage", "run": run_insert(3)},
+    {"name": "c26_o6_q_e2_delete_cell_3_keys", "crate": "nervusdb-storage", "run": run_delete_cell(3)},
     {"name": "c26_o1_q_e2_lower_bound_3_symbolic_keys", "crate": "nervusdb-storage", "run": run_lower_bound(3)},
 ]
